@@ -45,6 +45,9 @@ var batchParts = []gcs.BatchPart{
 	{Method: "GET", Path: "/storage/v1/b/bkt/o/a?alt=media"},
 	{Method: "POST", Path: "/storage/v1/b/bkt/o/a/rewriteTo/b/bkt/o/copy", Body: "{}", CT: "application/json"},
 	{Method: "GET", Path: "/storage/v1/b/bkt/o?maxResults=abc"},
+	// inner requests larger than the 4 KiB an HTTP reader buffers at first
+	{Method: "PATCH", Path: "/storage/v1/b/bkt/o/a", Body: gcs.BigPatchBody, CT: "application/json"},
+	{Method: "POST", Path: "/storage/v1/b/bkt/o/big/compose", Body: `{"sourceObjects":[{"name":"a"}],"destination":{"contentType":"text/plain","metadata":{"pad":"` + strings.Repeat("p", 6000) + `"}}}`, CT: "application/json"},
 }
 
 func genC20GCS() *rapid.Generator[C20GCSCase] {
